@@ -83,7 +83,7 @@ def main():
             print("RESULT " + json.dumps(res))
             os._exit(0)
     for call in range(ncalls):
-        state = {"done": False, "ret": None, "exc": None}
+        state = {"done": False, "ret": None, "exc": None, "exc_msg": None}
         if call == 1:
             # second call on the same ParallelMap: all tasks succeed
             args2 = [(100 + i, 0.0, "ok") for i in range(n)]
@@ -97,6 +97,7 @@ def main():
                     state["ret"] = pm(c13_tasks.task, args2, logdir=logdir)
             except BaseException as e:  # noqa: BLE001
                 state["exc"] = type(e).__name__
+                state["exc_msg"] = str(e)[:200]
             state["done"] = True
 
         th = threading.Thread(target=caller, daemon=True)
@@ -133,6 +134,7 @@ def main():
             "hang": hang,
             "returned": state["ret"] is not None and state["exc"] is None and state["done"],
             "exception": state["exc"],
+            "exception_msg": state.get("exc_msg"),
             "completion_order": order,
             "workers_alive": sum(1 for w in (pm.workers or []) if w.is_alive()),
         }
@@ -144,6 +146,7 @@ def main():
         if hang or res["outcome"] == "watchdog":
             break
     res["model_exception"] = model_exc
+    res["model_first_failing_task"] = next((i for i in range(n) if modes[i] != "ok"), None)
     # clean up
     for w in pm.workers or []:
         try:
